@@ -35,7 +35,9 @@ def evaluate(ctx, case):
     refpos, tgt, s = case["ref"]["pos"], case["tgt"], case["s"]
     n = len(refpos)
     anchors, nb = E.anchors_of(n, [tuple(b) for b in case["ref"]["bonds"]])
-    impl = E.run_impl(ctx, case)
+    impl = E.safe_run(ctx, case)
+    if impl is None:
+        return
     used = set(impl["equiv"])
     coll = [a for a in used if a is not None and n >= 3 and E.collinear_anchor(refpos, nb, a)[0]]
     ctx.case(case, nontrivial=len(used) >= 2 or bool(coll),
